@@ -35,10 +35,14 @@ CLAIMED = {
               'the t-th factory invocation of that call, made on that very ArgFactory; wrapped function called once); '
               'Partial.__build__ / ArgFactory.__build__ always go through _build_partial (assumed). Bounded: identity sets '
               'across calls for every Partial/ArgFactory nesting and every (signature, store) vs a functools.partial reference.', '§5 C04'),
-    'C05': _c('pyvc: _in_build and try_with_lazy_message (context managers: flag restored on every exit, the escaping exception '
-              'is the original or its decorated proxy), call_buildable, MemoizedTraversal.apply on exceptional exits. Bounded '
+    'C05': _c('pyvc: _in_build (context manager: flag restored on every exit, nothing swallowed), decorate_exception (fresh proxy '
+              'carrying exactly the given message, the exception itself only if no proxy can be made), '
+              'try_with_lazy_message.__exit__ (never swallows; an Exception is re-raised as its proxy with the lazily computed '
+              'message; False only for other BaseExceptions or when formatting failed) and the lemma that derives what escapes '
+              'a with-block from it, call_buildable, MemoizedTraversal.apply on exceptional exits. Bounded '
               'crash-point enumeration: every Buildable node of every small DAG as the failing node x exception-class shapes '
-              '(incl. distinct classes sharing module and qualified name) x diagnostic-formatting failure x repeated failures.', '§5 C05'),
+              '(incl. StopIteration & co., C-implemented constructors, TypeError, distinct classes sharing module and qualified '
+              'name) x diagnostic-formatting failure x repeated failures.', '§5 C05'),
     'C06': _c('pyvc: _compare_buildable at value level (check_dag=False: exact iff-characterisation — same class, equal '
               'callables, every key set on either side has value-or-default on both sides and they are equal; never raises '
               'except the internal has_var_keyword assertion; frame) and get_default. Bounded: all ordered pairs of '
@@ -84,8 +88,10 @@ CLAIMED = {
               'override parser on the property domain, directive sequences vs sequential application, serializer round '
               'trips, mutable literals fresh per directive.', '§5 C18'),
     'C20': _c('pyvc: materialize_defaults per-node step (every defaulted, non-default_factory parameter set under its canonical '
-              'key, nothing else changes, fixpoint) and get_default; bounded: build(t(cfg)) structurally equal to build(cfg) '
-              'for each transformation on the extended pool, idempotence, serializability.', '§5 C20'),
+              'key, nothing else changes, fixpoint), get_default and move_buildable_internals (what auto_config.inline moves: the '
+              'five internals, only between Buildables of exactly the same type); bounded: build(t(cfg)) structurally equal to '
+              'build(cfg) for each transformation on the extended pool (incl. auto_config.inline on ten placements of '
+              'auto_config functions), idempotence, serializability.', '§5 C20'),
 }
 NA = {
     'C11': 'quantifies over programs: needs a formal semantics of rewritten Python programs, no per-function contract expresses it',
